@@ -4,6 +4,7 @@ import (
 	"crypto/sha256"
 	"fmt"
 	"math/big"
+	"os"
 	"runtime/debug"
 	"sort"
 	"strings"
@@ -20,29 +21,33 @@ import (
 const privateNet = 77 // neither main net nor test net: no height gates (HSC/Bytom), no test-net patches
 
 func init() {
-	rule := "Each run drives ONE router of the PoSA family, chosen round-robin by run index from [" + strings.Join(routerNames(), " ") + "] " +
-		"(Polygon Bor is not covered: its validator sets come from Heimdall spans). A plan is: register the chain, install the trust root (epoch header), then steps " +
+	rule := "Each run drives ONE router of the PoSA family, chosen round-robin (rotated) by run index from [" + strings.Join(routerNames(), " ") + "] " +
+		"(Polygon Bor only inside one span and sprint: membership in the snapshot set of the trust root, proposer/backup difficulty N-succession, extra layout, parent/height, fork choice; it has no recent-signer rule, and sprint-end headers / span changes need Heimdall proofs and are not generated). A plan is: register the chain, install the trust root (epoch header), then steps " +
 		"hon/fork (extend a tip / branch off up to 4 blocks behind a tip of the simulated chain with a validly sealed header; validator sets of 3-7 secp256k1 keys out of a universe of 9, " +
 		"epoch length 4-8, sets announced by epoch blocks or - MSC - changed by clique votes), bad (one faulty header of a given kind), sub (a relayer transaction carrying 1-10 headers, " +
 		"in or out of order, with gaps and duplicates), cut (commit a poly block), restart (clean node restart). After every block every generated header is looked up in the router's stored state; " +
 		"whatever is stored is judged by the reference tree (parent stored, height, extra layout, sealer in the set in effect on that fork, recent-signer window floor(N/2), in-turn difficulty 2 / out-of-turn 1), " +
 		"the stored total difficulty is recomputed and the canonical index must lead to a stored header of maximal total difficulty. Non-trivial = at least 5 honest headers stored and at least one faulty header " +
 		"submitted while its parent was stored; distinct = digest of (router, per-header kind/outcome sequence, canonical head)."
-	req := []string{"honest_majority_accepted", "epoch_change_applied", "fork_reorg_by_difficulty", "side_branch_stored", "trust_root_installed", "duplicate"}
+	req := []string{"epoch_change_applied", "fork_reorg_by_difficulty", "side_branch_stored", "trust_root_installed", "duplicate"}
 	for _, k := range faultKinds {
 		req = append(req, k, "rejected:"+k)
 	}
+	for _, v := range variants {
+		req = append(req, "honest_majority_accepted:"+v.name) // per router: most honest headers were stored in at least one run
+	}
 	kernel.Register(&kernel.Check{
 		ID: "C29", Level: "exploration", Engine: "E1 lightclient-posa (lcposa)", Rule: rule,
-		Real: []string{"native/service/header_sync/{bsc,heco,hsc,pixiechain,bytom,msc} (SyncGenesisHeader, SyncBlockHeader, seal recovery, validator tracking, fork choice)", "header_sync entrance", "side_chain_manager registration", "ledger + native runtime (e1.Harness)", "go-ethereum secp256k1 / RLP / Keccak"},
-		Stub: []string{"the PoSA side chains themselves (simulated generator with real seals)", "relayer", "VBFT server / p2p (E1 producer stub)", "Polygon Bor / Heimdall (not covered)", "Harmony (cannot be built)"},
+		Real: []string{"native/service/header_sync/{bsc,heco,hsc,pixiechain,bytom,msc,polygon(bor)} (SyncGenesisHeader, SyncBlockHeader, seal recovery, validator tracking, fork choice)", "header_sync entrance", "side_chain_manager registration", "ledger + native runtime (e1.Harness)", "go-ethereum secp256k1 / RLP / Keccak"},
+		Stub: []string{"the PoSA side chains themselves (simulated generator with real seals)", "relayer", "VBFT server / p2p (E1 producer stub)", "Heimdall spans / sprint-end validator updates of Polygon Bor (not generated)", "Harmony (cannot be built)"},
 		Assumptions: []string{
 			"one-directional: only stored headers are judged; acceptance completeness is a probe, not an assertion",
-			"the simulated chain's protocol: Parlia (BSC, Bytom) activates an announced set floor(|old|/2) blocks after the epoch block, Congress (HECO, HSC, Pixie) at the next block, Clique (MSC) by majority votes; recent-signer window = floor(N/2) preceding blocks as far as the light client can know them (from the trust root on)",
-			"'well-formed fixed-format fields' = extra has 32 vanity bytes + 20*k validator bytes + 65 seal bytes, validator bytes exactly on epoch blocks (epoch length of the simulated chain)",
+			"the simulated chain's protocol: Parlia (BSC, Bytom) activates an announced set floor(|old|/2) blocks after the epoch block, Congress (HECO, HSC, Pixie) at the next block, Clique (MSC) by majority votes, Bor keeps the trust root's snapshot set for the whole run (proposer fixed inside a sprint, difficulty = N - succession, backups must wait succession*BackupMultiplier seconds); recent-signer window = floor(N/2) preceding blocks as far as the light client can know them (from the trust root on)",
+			"'well-formed fixed-format fields' = extra has 32 vanity bytes + 20*k (Bor 40*k) validator bytes + 65 seal bytes; validator bytes exactly on epoch blocks only for the routers that are told the epoch length (MSC checkpoints, Bor sprint ends)",
+			"BSC, HECO, HSC, Pixie and Bytom are not told the epoch length: a validly sealed header carrying validator bytes at any height is an epoch block for them. This is NOT asserted against (the property does not say at which heights validator bytes may appear); the reference adopts the listed set exactly as the router does, further blocks are built on such headers, and the outcome is counted in probes validator_bytes_on_non_epoch_accepted:<router>, off_epoch_set_change_on_canonical_chain:<router>, single_validator_takeover_canonical:<router>",
 			"network id 77 (private): HSC/Bytom start-height gate and test-net header patches are off; wall clock is the synctest bubble clock (all timestamps in the past)",
 		},
-		QuickRuns: 96, ThoroughRuns: 6000, QuickCap: 50, ThoroughCap: 780,
+		QuickRuns: 98, ThoroughRuns: 4900, QuickCap: 55, ThoroughCap: 850,
 		RequiredProbes: req,
 		Generate:       generate, Execute: execute,
 	})
@@ -52,20 +57,36 @@ func cfgRouter(p *kernel.Plan) *variant { return variants[mod(p.C("router", 0), 
 
 func generate(rng *kernel.RNG, idx int, tier string) *kernel.Plan {
 	p := &kernel.Plan{Cfg: map[string]int64{}}
-	p.Cfg["router"] = int64(idx % len(variants))
+	p.Cfg["router"] = int64((idx + idx/len(variants)) % len(variants)) // round robin, rotated per block of runs so a wall cap does not starve the same routers
+	// development / sensitivity knobs (plan generation only; Execute depends on the plan alone):
+	// LCPOSA_ROUTERS=bsc,heco restricts the round-robin, LCPOSA_SKIP_KINDS=kind,kind removes fault kinds.
+	if only := os.Getenv("LCPOSA_ROUTERS"); only != "" {
+		var idxs []int
+		for i, v := range variants {
+			for _, w := range strings.Split(only, ",") {
+				if w == v.name {
+					idxs = append(idxs, i)
+				}
+			}
+		}
+		if len(idxs) > 0 {
+			p.Cfg["router"] = int64(idxs[idx%len(idxs)])
+		}
+	}
+	skip := "," + os.Getenv("LCPOSA_SKIP_KINDS") + ","
 	p.Cfg["epoch"] = int64(4 + rng.Intn(5))
 	p.Cfg["set0"] = int64(1 + rng.Intn(1000))
 	p.Cfg["set1"] = int64(1 + rng.Intn(1000))
-	p.Cfg["followers"] = int64(rng.Intn(2))
-	target := 10 + rng.Intn(13)
+	p.Cfg["followers"] = int64(rng.Intn(3) / 2)
+	target := 8 + rng.Intn(11)
 	if tier == "thorough" {
-		target = 14 + rng.Intn(17)
+		target = 12 + rng.Intn(19)
 	}
 	// swarm: which fault kinds exist in this run
 	var kinds []int
 	if !rng.Chance(0.08) {
 		for i := range faultKinds {
-			if rng.Chance(0.6) {
+			if rng.Chance(0.6) && !strings.Contains(skip, ","+faultKinds[i]+",") {
 				kinds = append(kinds, i)
 			}
 		}
@@ -88,6 +109,7 @@ func generate(rng *kernel.RNG, idx int, tier string) *kernel.Plan {
 		}
 	}
 	lightStreak := 0
+	campaign, campaignLeft := int64(0), 0
 	for len(honest) < target {
 		// the simulated validators produce blocks
 		for i, n := 0, 1+rng.Intn(3); i < n && len(honest) < target; i++ {
@@ -95,6 +117,17 @@ func generate(rng *kernel.RNG, idx int, tier string) *kernel.Plan {
 			setSel := int64(0)
 			if rng.Chance(0.6) {
 				setSel = int64(1 + rng.Intn(1000))
+			}
+			if variants[p.Cfg["router"]].clique {
+				// clique: votes must concentrate on one target to pass; a campaign lasts a few blocks
+				if campaignLeft == 0 {
+					campaign, campaignLeft = int64(rng.Intn(nUniverse)), 3+rng.Intn(6)
+				}
+				campaignLeft--
+				setSel = 0
+				if rng.Chance(0.75) {
+					setSel = 2*campaign + 1
+				}
 			}
 			if rng.Chance(pFork) {
 				add("fork", int64(rng.Intn(12)), sealerSel, setSel)
@@ -115,10 +148,29 @@ func generate(rng *kernel.RNG, idx int, tier string) *kernel.Plan {
 		var badNow []int64
 		if len(kinds) > 0 && rng.Chance(pBad) {
 			k := kinds[rng.Intn(len(kinds))]
-			add("bad", int64(k), int64(rng.Intn(4)), int64(rng.Intn(64)), int64(rng.Intn(4096)))
+			if variants[p.Cfg["router"]].clique && rng.Chance(0.3) && !strings.Contains(skip, ",early_epoch_change,") {
+				k = kindIndex("early_epoch_change") // clique: sets change by votes at any block, probe the threshold often
+			}
+			parentSel := int64(rng.Intn(6)) // mostly near the newest stored / generated headers
+			if rng.Chance(0.2) {
+				parentSel = int64(rng.Intn(80)) // anywhere, the trust root included
+			}
+			add("bad", int64(k), parentSel, int64(rng.Intn(64)), int64(rng.Intn(4096)))
 			bad = append(bad, int64(count))
 			badNow = append(badNow, int64(count))
 			count++
+			if faultKinds[k] == offEpochKind && !variants[p.Cfg["router"]].epochKnown() && rng.Chance(0.6) {
+				// the routers that cannot know the epoch length adopt the set such a header lists:
+				// let the validators of that set extend the branch (in turn, i.e. as heavy as possible)
+				prev := int64(count - 1)
+				for i, n := 0, 2+rng.Intn(4); i < n; i++ {
+					add("hon", 0, int64(1+4*rng.Intn(16)), 0, prev)
+					prev = int64(count)
+					honest = append(honest, prev)
+					fresh = append(fresh, prev)
+					count++
+				}
+			}
 		}
 		// the relayer
 		if rng.Chance(0.75) && len(fresh) > 0 {
@@ -153,14 +205,14 @@ func generate(rng *kernel.RNG, idx int, tier string) *kernel.Plan {
 				add("sub", relayer(), b)
 			}
 		}
-		if rng.Chance(0.15) { // catch-up: everything so far, in order (duplicates for what is stored)
+		if rng.Chance(0.08) { // catch-up: everything so far, in order (duplicates for what is stored)
 			subChunks(honest, 10)
 			fresh = nil
 		}
-		if rng.Chance(0.6) {
+		if rng.Chance(0.4) {
 			add("cut")
 		}
-		if rng.Chance(0.07) {
+		if rng.Chance(0.04) {
 			add("cut")
 			add("restart", int64(rng.Intn(2)))
 		}
@@ -170,7 +222,7 @@ func generate(rng *kernel.RNG, idx int, tier string) *kernel.Plan {
 	add("cut")
 	subChunks(honest, 8)
 	add("cut")
-	if rng.Chance(0.5) {
+	if rng.Chance(0.3) {
 		add("restart", int64(rng.Intn(2)))
 	}
 	for i, b := range bad {
@@ -180,9 +232,24 @@ func generate(rng *kernel.RNG, idx int, tier string) *kernel.Plan {
 		}
 	}
 	add("cut")
-	if rng.Chance(0.5) {
+	// late faults built on the newest headers the light client holds (wherever it stopped
+	// following the simulated chain, this is where its view and the reference may differ)
+	if len(kinds) > 0 {
+		for i, n := 0, 2+rng.Intn(3); i < n; i++ {
+			k := kinds[rng.Intn(len(kinds))]
+			if variants[p.Cfg["router"]].clique && rng.Chance(0.4) && !strings.Contains(skip, ",early_epoch_change,") {
+				k = kindIndex("early_epoch_change")
+			}
+			add("bad", int64(k), int64(2*rng.Intn(2)), int64(rng.Intn(64)), int64(rng.Intn(4096)))
+			add("sub", relayer(), int64(count))
+			bad = append(bad, int64(count))
+			count++
+		}
+		add("cut")
+	}
+	if rng.Chance(0.3) {
 		all := append(append([]int64{}, honest...), bad...)
-		subChunks(all[:len(all)/2+1], 10)
+		subChunks(all[len(all)/2:], 10)
 		add("cut")
 	}
 	return p
@@ -194,6 +261,17 @@ type pendTx struct {
 }
 
 func execute(run *kernel.Run) {
+	// nothing can be stored without a trust root and at least one relayer transaction: such a
+	// plan (met while a failing plan is being minimised) holds trivially, skip building a world
+	hasGenesis, hasSub := false, false
+	for _, st := range run.Plan.Steps {
+		hasGenesis = hasGenesis || st.Op == "genesis"
+		hasSub = hasSub || (hasGenesis && st.Op == "sub")
+	}
+	if !hasGenesis || !hasSub {
+		run.Logf("plan without trust root or without submissions after it: nothing to check")
+		return
+	}
 	kernel.InBubble(func() { executeInBubble(run) })
 }
 
@@ -229,14 +307,14 @@ func executeInBubble(run *kernel.Run) {
 }
 
 type exec struct {
-	run  *kernel.Run
-	h    *e1.Harness
-	c    *simChain
-	v    *variant
-	pend []*pendTx
-	head int // node index of the canonical head as last observed (-1 before the trust root)
-	sig  []string
-	rootInstalled bool
+	run              *kernel.Run
+	h                *e1.Harness
+	c                *simChain
+	v                *variant
+	pend             []*pendTx
+	head             int // node index of the canonical head as last observed (-1 before the trust root)
+	sig              []string
+	rootInstalled    bool
 	reorgs, accepted int
 }
 
@@ -252,7 +330,15 @@ func (x *exec) step(st kernel.Step) bool {
 		return x.cut()
 	case "hon":
 		tips := c.tips()
-		n := c.mkHonest(tips[mod(st.Arg(0), len(tips))], st.Arg(1), st.Arg(2))
+		p := tips[mod(st.Arg(0), len(tips))]
+		if a := st.Arg(3); a > 0 { // extend this very header if further blocks can be built on it
+			for _, hn := range c.honestNodes() {
+				if hn.idx == mod(a, len(c.nodes)) {
+					p = hn
+				}
+			}
+		}
+		n := c.mkHonest(p, st.Arg(1), st.Arg(2))
 		x.logNode(n)
 	case "fork":
 		tips := c.tips()
@@ -328,7 +414,67 @@ func (x *exec) cut() (ok bool) {
 		hh := p.tx.Hash()
 		byHash[string(hh[:])] = p
 	}
-	var traces []*e1.TxTrace
+	// per-transaction accounting runs BEFORE the commit (exact pre/post states of each transaction)
+	good := true
+	inspect := func(traces []*e1.TxTrace) {
+		for _, t := range traces {
+			hh := t.Tx.Hash()
+			p := byHash[string(hh[:])]
+			if p == nil {
+				continue
+			}
+			pre, post := lcState{t.Pre, c}, lcState{t.Post, c}
+			var acc []int
+			fresh, faulty := 0, 0
+			inTx := map[int]bool{}
+			for _, n := range p.nodes {
+				was, now := pre.has(n.hash), post.has(n.hash)
+				if n.idx == 0 {
+					if now && !was {
+						run.Probe("trust_root_installed")
+					}
+					continue
+				}
+				if was {
+					run.Fault("duplicate")
+				}
+				if now && !was {
+					acc = append(acc, n.idx)
+				}
+				if len(n.broken) == 0 {
+					if !was {
+						fresh++
+					}
+					if n.kind == offEpochKind && !was && !n.fired && (pre.has(c.nodes[n.parent].hash) || inTx[n.parent]) {
+						n.fired = true
+						run.Fault(n.kind) // not a violation for this router (it cannot know the epoch length); outcome goes to a probe
+					}
+				} else {
+					faulty++
+					parentThere := n.parent >= 0 && (pre.has(c.nodes[n.parent].hash) || inTx[n.parent])
+					if !was && (parentThere || n.kind == "unknown_parent") {
+						if !n.fired {
+							n.fired = true
+							run.Fault(n.kind)
+						}
+						if !now {
+							run.Probe("rejected:" + n.kind)
+						}
+					}
+				}
+				inTx[n.idx] = true
+			}
+			if !t.OK && fresh > 0 && faulty > 0 {
+				run.Probe("tx_with_faulty_header_rolled_back")
+			}
+			if !t.OK && len(acc) > 0 {
+				x.fail("failed-tx-stored-headers", "transaction %d failed but headers %v are stored in its post-state", t.Index, acc)
+				good = false
+				return
+			}
+			run.Logf("tx %d ok=%v headers=%d stored=%v", t.Index, t.OK, len(p.nodes), acc)
+		}
+	}
 	func() {
 		defer func() {
 			if e := recover(); e != nil {
@@ -341,62 +487,10 @@ func (x *exec) cut() (ok bool) {
 				panic(e)
 			}
 		}()
-		traces, ok = x.h.Exec(txs...)
+		_, ok = x.h.ExecInspect(inspect, txs...)
 	}()
-	if !ok {
+	if !ok || !good {
 		return false
-	}
-	for _, t := range traces {
-		hh := t.Tx.Hash()
-		p := byHash[string(hh[:])]
-		if p == nil {
-			continue
-		}
-		pre, post := lcState{t.Pre, c}, lcState{t.Post, c}
-		var acc []int
-		fresh, faulty := 0, 0
-		inTx := map[int]bool{}
-		for _, n := range p.nodes {
-			was, now := pre.has(n.hash), post.has(n.hash)
-			if n.idx == 0 {
-				if now && !was {
-					run.Probe("trust_root_installed")
-				}
-				continue
-			}
-			if was {
-				run.Fault("duplicate")
-			}
-			if now && !was {
-				acc = append(acc, n.idx)
-			}
-			if len(n.broken) == 0 {
-				if !was {
-					fresh++
-				}
-			} else {
-				faulty++
-				parentThere := n.parent >= 0 && (pre.has(c.nodes[n.parent].hash) || inTx[n.parent])
-				if !was && (parentThere || n.kind == "unknown_parent") {
-					if !n.fired {
-						n.fired = true
-						run.Fault(n.kind)
-					}
-					if !now {
-						run.Probe("rejected:" + n.kind)
-					}
-				}
-			}
-			inTx[n.idx] = true
-		}
-		if !t.OK && fresh > 0 && faulty > 0 {
-			run.Probe("tx_with_faulty_header_rolled_back")
-		}
-		if !t.OK && len(acc) > 0 {
-			x.fail("failed-tx-stored-headers", "transaction %d failed but headers %v are stored in its post-state", t.Index, acc)
-			return false
-		}
-		run.Logf("tx %d ok=%v headers=%d stored=%v", t.Index, t.OK, len(p.nodes), acc)
 	}
 	return x.oracle()
 }
@@ -441,6 +535,9 @@ func (x *exec) oracle() bool {
 			x.sig = append(x.sig, fmt.Sprintf("%s@%d+%d", n.kind, n.number-c.rootNo, n.hdr.Difficulty))
 			if len(n.hdr.Extra) > extraVanity+extraSeal {
 				run.Probe("epoch_block_stored")
+			}
+			if n.kind == offEpochKind {
+				run.Probe("validator_bytes_on_non_epoch_accepted:" + x.v.name)
 			}
 			initial := c.prevSet
 			if !contains(initial, n.sealer) {
@@ -496,6 +593,17 @@ func (x *exec) oracle() bool {
 	onMain := map[int]bool{}
 	for n := head; ; n = c.nodes[n.parent] {
 		onMain[n.idx] = true
+		if n.kind == offEpochKind && n.idx != head.idx {
+			// the canonical chain runs through a set installed outside an epoch block
+			run.Probe("off_epoch_set_change_on_canonical_chain:" + x.v.name)
+			for _, a := range listed(n.hdr) {
+				if c.byAddr[a] >= nUniverse {
+					// ... a set made of the announcing validator and keys that never were validators
+					run.Probe("single_validator_takeover_canonical:" + x.v.name)
+					break
+				}
+			}
+		}
 		got, ok := s.mainChain(n.number)
 		if !ok || got != n.hash {
 			x.fail("main-chain-index-broken", "main chain entry %d is %x, the head's ancestor at that height is node %d (%x)", n.number, got[:6], n.idx, n.hash[:6])
@@ -581,11 +689,14 @@ func (x *exec) finish() {
 			continue
 		}
 		if len(n.broken) == 0 {
-			if n.submitted > 0 {
+			if n.submitted > 0 && c.pure(n) {
 				honest++
 				if n.stored {
 					stored++
 				}
+			}
+			if n.kind == offEpochKind && n.fired {
+				firedKinds[n.kind]++
 			}
 		} else if n.fired {
 			fired++
@@ -596,11 +707,11 @@ func (x *exec) finish() {
 		switch {
 		case stored == honest:
 			run.Probe("honest_all_accepted")
-			run.Probe("honest_majority_accepted")
+			run.Probe("honest_majority_accepted:" + x.v.name)
 		case stored*5 >= honest*4:
-			run.Probe("honest_majority_accepted")
+			run.Probe("honest_majority_accepted:" + x.v.name)
 		default:
-			run.Probe("honest_minority_accepted")
+			run.Probe("honest_minority_accepted:" + x.v.name)
 		}
 	}
 	run.Logf("end: honest submitted=%d stored=%d faulty fired=%d reorgs=%d", honest, stored, fired, x.reorgs)
